@@ -241,6 +241,35 @@ fn main() {
                 writeln!(out, "L i={i} bucket={b} len={l} entry={e}").unwrap();
             }
         }
+        "cap" => {
+            // the capacity limit: ordinary pushes, then batches whose iterator claims an enormous length (they reserve their
+            // indices and are then rejected with a panic), rejected pushes beyond the limit, and the count in between
+            nucleo::verif::set_callback(None);
+            for k in [0u32, 3, 40] {
+                for extra in [0u32, 1, 7] {
+                    let vec: BVec<u32> = BVec::with_capacity(0, 1);
+                    let mut ops: Vec<String> = Vec::new();
+                    let mut completed = 0u32;
+                    for v in 0..k {
+                        vec.push(v, fill);
+                        completed += 1;
+                    }
+                    ops.push(format!("c{}:{}", vec.count(), completed));
+                    // reserve everything up to u32::MAX - extra (the batch is rejected: beyond MAX_ENTRIES)
+                    let claim = (u32::MAX - k - extra) as usize;
+                    let it = LyingIter { len: claim, it: Vec::new().into_iter() };
+                    let r = catch_unwind(AssertUnwindSafe(|| vec.extend(it, fill)));
+                    ops.push(format!("e{}:{}", claim, if r.is_ok() { "ok" } else { "panic" }));
+                    ops.push(format!("c{}:{}", vec.count(), completed));
+                    for j in 0..(extra + 3) {
+                        let r = catch_unwind(AssertUnwindSafe(|| vec.push(1000 + j, fill)));
+                        ops.push(format!("p:{}", match r { Ok(i) => i.to_string(), Err(_) => "panic".to_string() }));
+                        ops.push(format!("c{}:{}", vec.count(), completed));
+                    }
+                    writeln!(out, "K pushes={} ops={}", k, ops.join(",")).unwrap();
+                }
+            }
+        }
         _ => panic!("mode"),
     }
     out.flush().unwrap();
